@@ -187,7 +187,7 @@ func (m *C03Monitor) expectedTxDelta(c *Chain, ctx sdk.Context, tx sdk.Tx) (lo, 
 		case *bridgetypes.MsgClaimDepositsRequest:
 			for i, id := range x.DepositIds {
 				qid := QueryID(BridgeQuery(true, id))
-				agg, _, err := c.App.OracleKeeper.GetAggregateByIndex(ctx, qid, x.Indices[i])
+				agg, _, err := ownAggregateByIndex(c, ctx, qid, x.Indices[i])
 				if err != nil || agg == nil {
 					continue
 				}
